@@ -13,6 +13,9 @@ def motif_edges(shape, vs):
     if shape == "cycle":
         n = len(vs)
         return [tuple(sorted((vs[i], vs[(i + 1) % n]))) for i in range(n)]
+    if shape == "diamond":   # 4-cycle vs[0..3] plus the chord vs[0]-vs[2]; one topology name for all five edges
+        es = [tuple(sorted((vs[i], vs[(i + 1) % 4]))) for i in range(4)]
+        return es + [tuple(sorted((vs[0], vs[2])))]
     raise KeyError(shape)
 
 
@@ -106,4 +109,8 @@ TOPOLOGY_SETS = {
     "c2+cyc4": [("2-clique", 2, "clique"), ("4-cycle", 4, "cycle")],
     "cyc4": [("4-cycle", 4, "cycle")],
     "c2+c4": [("2-clique", 2, "clique"), ("4-clique", 4, "clique")],
+    "c2+c5": [("2-clique", 2, "clique"), ("5-clique", 5, "clique")],
+    "c2+cyc5": [("2-clique", 2, "clique"), ("5-cycle", 5, "cycle")],
+    "c2+dia": [("2-clique", 2, "clique"), ("diamond", 4, "diamond")],
+    "c2+c3+red": [("2-clique", 2, "clique"), ("3-clique", 3, "clique"), ("2-clique-red", 2, "clique")],
 }
